@@ -195,9 +195,9 @@ func init() {
 		})
 		sc2.AfterOp = after
 		scs = append(scs, sc2)
-		return &Check{ID: "C15", Scenarios: scs,
+		return &Check{ID: "C15", Scenarios: scs, Special: clockSweep,
 			Rule:   "all histories over the relation and the batch alphabets with Shrink() and repeated Shrink(0) at every position, also while queries are open and with registered filters; oracle: full model comparison (entities, values, relations, filter family, cached filters) after the call and after every later operation, capacity bounds from Stats() after an unbounded Shrink, repeated limited Shrink terminates; non-trivial = >=1 alive entity",
-			Assume: []string{"time-limited Shrink is driven with limit 0 (stop after the first change) instead of a virtual clock"}}
+			Assume: []string{"in the main exploration time-limited Shrink is driven with limit 0; the virtual-clock sweep (time overlay) enumerates all clock answer patterns of length 4 (quick) / 6 (thorough) at every state of a depth 2 / 3 exploration"}}
 	}
 
 	Registry["C19"] = func(t Tier) *Check {
